@@ -207,7 +207,9 @@ def part_b_c(chk, tier):
                                 want = np.asarray(tr2.to_var())
                                 if np.max(np.abs(est - want)) > (2e-3 if family == "re" else 5e-4):
                                     chk.violation("optimum:%s:exact_data:%s" % (cfgk, family), "exact data of a physical object: estimate deviates by %.3g [%s]" % (float(np.max(np.abs(est - want))), tag), case)
-                            if mode == MODES[0] and fast and name != "qpt":
+                            # (process tomography: the CVXPY solve is slower, so only the few-shot data set - where the projection inside
+                            # the gradient steps matters most - is compared)
+                            if mode == MODES[0] and fast and (name != "qpt" or dname == "N10"):
                                 cvx = cvxpy_estimate(qt, data, family)
                                 if cvx is not None:
                                     fcv = float(loss.value(cvx))
@@ -226,7 +228,9 @@ def part_b_c(chk, tier):
                                     if gap > 2e-5:
                                         chk.violation("cvxpy:%s:beaten_by_backtracking:%s" % (cfgk, family),
                                                       "loss at the CVXPY/SCS estimate %.9g, at the backtracking estimate %.9g [%s]" % (fcv, f_est, tag), case)
-                                    if abs(fcv - f_est) > 2e-4 * (1 + abs(f_est)) and fcv < f_est:
+                                    if not (name == "povmt3" and para):
+                                        chk.notes["pgdb_max_excess_loss"] = max(chk.notes.get("pgdb_max_excess_loss", 0.0), float(-gap))
+                                    if -gap > 2e-5:
                                         chk.violation("optimum:%s:cvxpy_lower:%s" % (cfgk, family), "CVXPY/SCS reaches loss %.9g, backtracking %.9g [%s]" % (fcv, f_est, tag), case)
                                     if np.max(np.abs(cvx - est)) > 5e-2 and abs(fcv - f_est) > 1e-3 * (1 + abs(f_est)):
                                         chk.violation("optimum:%s:cvxpy_disagrees:%s" % (cfgk, family), "the two estimators disagree: max dev %.3g, losses %.6g / %.6g [%s]" % (float(np.max(np.abs(cvx - est))), fcv, f_est, tag), case)
